@@ -38,6 +38,7 @@ var registry = map[string]checkFn{
 	"C17": runC17,
 	"C18": runC18,
 	"C19": runC19,
+	"C20": runC20,
 }
 
 // Main implements `bmsym check <id> <quick|thorough>`.
